@@ -131,7 +131,10 @@ class C16(Machine):
                 if op["op"] == "candidates":
                     ok = self.cand_substitution_ok(A, B, A.node_of(op.get("node")), oa["value"], ob["value"])
                 elif op["op"] == "exp_candidates":
-                    ok = all(self.cand_substitution_ok(A, B, int(k), oa["value"].get(k, []), ob["value"].get(k, [])) for k in set(oa["value"]) | set(ob["value"]))
+                    ok = all(
+                        oa["value"].get(k, []) == ob["value"].get(k, []) or self.cand_substitution_ok(A, B, int(k), oa["value"].get(k, []), ob["value"].get(k, []))
+                        for k in sorted(set(oa["value"]) | set(ob["value"]))
+                    )
                 if not ok:
                     return [viol(self.ID, "return_value_differs", step, {"op": op, "faulted": oa.get("value"), "untouched": ob.get("value")}, site)]
         da = D.dump(A, with_ids=True, attr=True)
